@@ -46,7 +46,11 @@ class Hist:
         self.dir = os.path.join(E.dir, 'h_' + tag); os.makedirs(self.dir, exist_ok=True)
         self.cache = os.path.join(self.dir, 'cache')
         self.src = os.path.join(self.dir, 'k.okl'); open(self.src, 'w').write(SRC)
-        self.props = os.path.join(self.dir, 'p.json'); open(self.props, 'w').write('{}')
+        # the compiler is a wrapper around g++ that fails once when the flag file exists (a build that stops in the native compile)
+        self.wrapper = os.path.join(self.dir, 'cxx.sh'); self.flag = os.path.join(self.dir, 'fail_once')
+        open(self.wrapper, 'w').write('#!/bin/sh\nif [ -e "%s" ]; then rm -f "%s"; echo "compiler: simulated failure" >&2; exit 1; fi\nexec g++ "$@"\n' % (self.flag, self.flag))
+        os.chmod(self.wrapper, 0o755)
+        self.props = os.path.join(self.dir, 'p.json'); open(self.props, 'w').write(json.dumps({'compiler': self.wrapper}))
 
     def set(self, state):
         for f in FILES:
@@ -84,11 +88,18 @@ def st(a, b, c):
 
 
 def run_history(E, tag, states):
-    """builds in fresh processes after each edit; returns [(state, result, ok)]"""
+    """builds in fresh processes after each edit; returns [(state, result, ok)].  A state with 'fail': True is built with a compiler
+    that fails once: that build must not succeed, and it must not poison the builds after it."""
     h = Hist(E, tag); out = []
     for s in states:
-        h.set(s); r = h.run('buildfile')
-        out.append((s, {'rc': r['rc'], 'run': r['run'], 'exception': r['exception']}, r['run'] == expected(s)))
+        h.set(s)
+        if s.get('fail'):
+            open(h.flag, 'w').write('1')
+        r = h.run('buildfile')
+        if s.get('fail'):
+            out.append((s, {'rc': r['rc'], 'run': r['run'], 'exception': r['exception']}, r['run'] is None or r['run'] == expected(s)))
+        else:
+            out.append((s, {'rc': r['rc'], 'run': r['run'], 'exception': r['exception']}, r['run'] == expected(s)))
     return out
 
 
@@ -195,12 +206,13 @@ def run(ctx):
         ctx.queries.append(rec)
     # ---- enumerated histories on the real library (encoder validation + the clauses about reverts and nested headers)
     H = [('edit-revert', [S0, S1, S0]), ('edit-edit-back', [S0, S1, st('b', 'a', 'ab'), S1]), ('nested-only', [S0, st('a', 'b', 'ba'), st('a', 'b', 'aa'), S0]),
-         ('one-file', [S0, st('aa', 'b', 'ab'), st('aa', 'bb', 'ab')])]
+         ('one-file', [S0, st('aa', 'b', 'ab'), st('aa', 'bb', 'ab')]),
+         ('failed-compile-then-edit', [dict(S0, fail=True), S1, S1, S0]), ('edit-failed-compile-edit', [S0, dict(S1, fail=True), st('b', 'a', 'ab'), S1])]
     if thorough:
         H += [('long', [S0, S1, st('b', 'b', 'a'), st('b', 'a', 'a'), S1, S0, st('a', 'b', 'a')]), ('alternate', [S0, S1, S0, S1, S0])]
     for tag, states in H:
         hist = run_history(E, tag, states)
-        rec = {'query': 'history/%s' % tag, 'desc': 'builds in fresh processes after each edit: %s' % ' -> '.join('%s%s%s' % (1 + WORDS.index(s['a.h']), 1 + WORDS.index(s['b.h']), 1 + WORDS.index(s['c.h'])) for s in states),
+        rec = {'query': 'history/%s' % tag, 'desc': 'builds in fresh processes after each edit (! = the native compile of that build fails): %s' % ' -> '.join('%s%s%s%s' % (1 + WORDS.index(s['a.h']), 1 + WORDS.index(s['b.h']), 1 + WORDS.index(s['c.h']), '!' if s.get('fail') else '') for s in states),
                'seconds': 0, 'witness': 'reached', 'properties': len(states), 'status': 'pass' if all(ok for (_, _, ok) in hist) else 'fail'}
         ctx.selftests += 1
         if rec['status'] == 'fail':
@@ -212,7 +224,7 @@ def run(ctx):
                   [{k: r.get(k) for k in ('query', 'desc', 'status', 'result', 'model')} for r in ctx.queries if r['query'].startswith(('collision', 'history'))][:3]
     ctx.bounds = {'include graph': 'one kernel file including a.h, b.h and n.h, n.h including c.h (four dependencies, one nested; a.h, b.h and c.h are edited)',
                   'contents': 'SMT: 7 contents per file, the same content allowed in a.h and b.h; term shape taken from one edit of all three files',
-                  'histories': '%d enumerated histories of up to %d edits replayed on the real library in fresh processes sharing one cache directory (edit, revert, re-edit, nested header only)' % (len(H), max(len(s) for _, s in H) - 1),
+                  'histories': '%d enumerated histories of up to %d edits replayed on the real library in fresh processes sharing one cache directory (edit, revert, re-edit, nested header only, a build whose native compile fails before or after an edit)' % (len(H), max(len(s) for _, s in H) - 1),
                   'outside': 'collisions of the 256-bit hash itself; adding or removing #include lines between builds (include-graph changes); more than three dependencies; include-path shadowing; files removed between builds; non-Serial devices; the preprocessor itself (dependency capture is only observed on this include graph)'}
     ctx.assumptions += ['as C06: the hook logs every occa::hash over bytes and every XOR; equality of XOR-of-hash terms for every H <=> every string occurs an even number of times',
                         'a binary stored under a key was compiled from the contents that produced that key (the build reads the files it hashes in the same process)']
